@@ -2038,8 +2038,58 @@ fn failed_setup_check() -> (u64, Vec<String>) {
     (n, bad)
 }
 
+/// `dispatch(); dispatch(); wait()` in a tight loop for `ms` milliseconds: when `wait` returns, both
+/// dispatches have run the ordinary system (2 runs per round) and the thread-local system has run once,
+/// after them. Counters only; a race between a second `dispatch` and the end of the first job shows up
+/// as a round whose second dispatch has not run yet when `wait` returns.
+fn redispatch_stress(ms: u64) -> (u64, Option<String>) {
+    use shred::{DispatcherBuilder, System, World};
+    struct A(Arc<AtomicU64>);
+    impl<'a> System<'a> for A {
+        type SystemData = ();
+        fn run(&mut self, _: ()) {
+            self.0.fetch_add(1, SeqCst);
+        }
+    }
+    struct T(Arc<AtomicU64>, Arc<AtomicU64>, Arc<Mutex<Option<String>>>);
+    impl<'a> System<'a> for T {
+        type SystemData = ();
+        fn run(&mut self, _: ()) {
+            let k = self.1.fetch_add(1, SeqCst) + 1;
+            let a = self.0.load(SeqCst);
+            if a != 2 * k {
+                let mut b = self.2.lock().unwrap();
+                if b.is_none() {
+                    *b = Some(format!("round {}: the thread-local system runs inside wait() while the ordinary system has run {} times in all, expected {} (two dispatches per round)", k, a, 2 * k));
+                }
+            }
+        }
+    }
+    let (a, t, bad) = (Arc::new(AtomicU64::new(0)), Arc::new(AtomicU64::new(0)), Arc::new(Mutex::new(None)));
+    let pool = Arc::new(rayon::ThreadPoolBuilder::new().num_threads(2).panic_handler(|_| {}).build().unwrap());
+    let mut d = DispatcherBuilder::new().with_pool(pool).with(A(a.clone()), "a", &[]).with_thread_local(T(a.clone(), t.clone(), bad.clone())).build_async(World::empty());
+    let t0 = Instant::now();
+    let mut rounds = 0u64;
+    while t0.elapsed() < Duration::from_millis(ms) && bad.lock().unwrap().is_none() {
+        for _ in 0..50 {
+            d.dispatch();
+            d.dispatch();
+            d.wait();
+            rounds += 1;
+        }
+    }
+    let b = bad.lock().unwrap().clone();
+    (rounds, b)
+}
+
 pub fn run(args: &Args, rep: &mut Report) {
     if args.get("replay").is_none() {
+        let (n, bad) = redispatch_stress(args.num("stress-ms", 400));
+        rep.add("rounds_of_dispatch_dispatch_wait_in_a_tight_loop", n);
+        if let Some(b) = bad {
+            rep.violate("C12", "impl", "tl-before-finish", format!("{} [redispatch-stress]", b), vec!["# redispatch-stress: dispatch(); dispatch(); wait() in a tight loop, see harness/src/engines/asyncd.rs".into()]);
+            rep.violate("C15", "impl", "each-once", format!("{} [redispatch-stress]", b), vec!["# redispatch-stress".into()]);
+        }
         let (n, bad) = failed_setup_check();
         rep.add("dispatchers_used_on_after_a_setup_hook_panicked", n);
         for b in bad {
